@@ -13,8 +13,11 @@ EXPLANATION = (
     "Representation invariant of _CommonFile (ghost view, skolemised): every key has at most one (_RECORD, key) entry in "
     "_source and every current key has exactly one. _set_record, HtpasswdFile.set_hash/delete and HtdigestFile.delete are "
     "verified from their real source to preserve it for an arbitrary key (maps as arrays, the _source list as a ghost "
-    "multiset); _encode_field is verified to refuse separators, control characters and more than 255 bytes. The loops of "
-    "_load_lines / _iter_lines (symbolic-length lists) and whole operation sequences are covered by the bounded stand-in."
+    "multiset); _encode_field is verified to refuse separators, control characters and more than 255 bytes. _load_lines is verified "
+    "with a loop invariant over an ABSTRACT sequence of lines of unknown length (comment / blank / record / duplicate / malformed "
+    "lines in any mixture; _parse_record abstract): it establishes the invariant from scratch, drops duplicate lines, and installs "
+    "the new maps only after the last line parsed (a malformed line leaves the object untouched). The _iter_lines generator and "
+    "whole operation sequences are covered by the bounded stand-in."
 )
 ASSUMPTIONS = [
     "_source is abstracted by the ghost multiset of its (_RECORD, key) entries; order of lines is checked by the bounded stand-in only",
@@ -131,6 +134,9 @@ CONTRACTS = [
     ),
 ]
 
+from contracts import c16_load  # noqa: E402
+
+CONTRACTS += c16_load.CONTRACTS
 BOUNDED = [Bounded("c16", "harness/c16.py", descr="operation sequences over small alphabets vs an independent reader", timeout=900)]
 
 MUTANTS = [
@@ -140,3 +146,4 @@ MUTANTS = [
     ("_encode_field allows 256 bytes", A, "        if len(value) > 255:\n", "        if len(value) > 256:\n", "refute"),
     ("_encode_field forgets the tab", A, '_INVALID_FIELD_CHARS = b":\\n\\r\\t\\x00"', '_INVALID_FIELD_CHARS = b":\\n\\r\\x00"', "refute"),
 ]
+MUTANTS += c16_load.MUTANTS
